@@ -13,12 +13,12 @@ def F(items, tags=(), bg=0, name=None):
     return {"tags": list(tags), "bg": bg, "items": list(items), "name": name}
 
 
-def S(n, tags=(), und=()):
-    return {"k": "s", "n": n, "tags": list(tags)}
+def S(n, tags=(), name=None):
+    return {"k": "s", "n": n, "tags": list(tags), "name": name}
 
 
-def O(n, ex, tags=()):
-    return {"k": "o", "n": n, "tags": list(tags),
+def O(n, ex, tags=(), name=None):
+    return {"k": "o", "n": n, "tags": list(tags), "name": name,
             "ex": [{"rows": e[0], "tags": list(e[1]) if len(e) > 1 else []} if not isinstance(e, dict) else e
                    for e in ex]}
 
@@ -135,7 +135,7 @@ def render_feature(shape, fidx=0, markers=False, indent="  ", blank=0, step_kw=(
             if it["k"] == "s":
                 tags = list(it["tags"]) + (["m_" + iid] if markers else []) + pt(iid)
                 emit_tags(tags, ind)
-                e = reg(Elem(iid, "scenario", emit(ind + "Scenario: %s" % iid), tags, container))
+                e = reg(Elem(iid, "scenario", emit(ind + "Scenario: %s" % (it.get("name") or iid)), tags, container))
                 e.marker = "m_" + iid if markers else None
                 for k in range(it["n"]):
                     src = "%s.%d" % (iid, k)
@@ -145,7 +145,7 @@ def render_feature(shape, fidx=0, markers=False, indent="  ", blank=0, step_kw=(
             elif it["k"] == "o":
                 tags = list(it["tags"]) + (["m_" + iid] if markers else []) + pt(iid)
                 emit_tags(tags, ind)
-                o = reg(Elem(iid, "outline", emit(ind + "Scenario Outline: %s" % iid), tags, container))
+                o = reg(Elem(iid, "outline", emit(ind + "Scenario Outline: %s" % (it.get("name") or iid)), tags, container))
                 o.marker = "m_" + iid if markers else None
                 for k in range(it["n"]):
                     src = "%s.%d" % (iid, k)
